@@ -445,6 +445,11 @@ class Alpha:
         else:
             e = ast.Name('<with:%s>' % norm(inner), ast.Load())
         if idx is not None:
+            # `a, b = xs[:2]`: the i-th target is xs[i]
+            if kind == 'def' and isinstance(e, ast.Subscript) and isinstance(e.slice, ast.Slice) and e.slice.step is None \
+                    and (e.slice.lower is None or (isinstance(e.slice.lower, ast.Constant) and e.slice.lower.value == 0)) \
+                    and isinstance(e.slice.upper, ast.Constant) and isinstance(e.slice.upper.value, int) and 0 <= idx < e.slice.upper.value:
+                e = e.value
             e = ast.Subscript(e, ast.Constant(idx), ast.Load())
         return e
 
